@@ -111,6 +111,11 @@ def gen_cases(tier, seed):
                 o = []
                 for dt, val in rng.sample(small, 12):
                     o += triple(rng, dt, val)
+                # zero-length values: the transfer ends with an empty closing segment whose
+                # acknowledgement must be awaited (visible only with deferred delivery)
+                for dt, empty in ((enc.VSTR, ""), (enc.OSTR, b""), (enc.USTR, ""), (enc.DOMAIN, b"")):
+                    if rng.random() < 0.6:
+                        o += triple(rng, dt, empty)
                 # a few long strings so that segmented transfers of different nodes interleave
                 for dt in (enc.VSTR, enc.DOMAIN):
                     big = [(d, x) for d, x in pool if d == dt and len(x) > 20]
